@@ -66,6 +66,26 @@ CHECKS = {
 }
 NOT_YET = {}
 
+# additions of the last round, appended to the level texts
+EXTRA = {
+ "C01": " Includes content built against the range coder's arithmetic (runs of up to 150 held-back bytes ended with or without a carry).",
+ "C02": " Includes content built against the range coder's arithmetic (held-back runs with and without carry).",
+ "C03": " Far-distance streams (every distance slot of a 16 MiB / 128 MiB window) with LZMA, uncompressed and mixed filler.",
+ "C04": " Per-record index edits also on streams of more than 65536 blocks (records around 2^16 and the last ones).",
+ "C06": " Includes content built against the range coder's arithmetic under each case's lc/lp/pb.",
+ "C07": " Writer cases include content built against the range coder's arithmetic (held-back runs of 6..150 bytes, with and without carry; the longest run seen in the output is in the evidence).",
+ "C08": " Special histories: 1200 tiny flushed messages, a 64 MiB dictionary with a match in every distance slot, a held-back run of the range coder swept across the end of the first chunk.",
+ "C10": " Runs with 256..1024 (thorough 70000) arguments of which 0, 1, 256, 512 ... fail.",
+ "C11": " A fixed list of inputs hostile by amount (48 MiB of padding, 400000 empty streams, 200000 one-byte blocks, 300000 one-byte chunks).",
+ "C12": " Chains of 1200-1800 streams, total padding of MiB, single gaps of 3-48 MiB.",
+ "C13": " Schedules with runs of 5..5000 zero-length reads between data reads.",
+ "C14": " Connected instances in a separate mode (stacked instances, io.Pipe pipelines, hand-over with a stalled source or sink): same bytes as alone; a mutual block is decided by the Go runtime's deadlock detector in a plain (non -race) build of the same program.",
+ "C15": " Runs with hundreds of arguments; files whose content is built against the encoder (held-back run swept across the end of the first 64 KiB chunk).",
+ "C16": " The enumerated sequences are realised a second time (sampled) with bulky payloads so that mid-sequence resets follow a filled and wrapped dictionary.",
+ "C17": " Plus X||X of 7-12 MiB, runs of 48-200 MiB and 24 MiB of noise.",
+ "C18": " Block headers of two writers of which one works inside the other's sink Write (side activity, xz in xz).",
+}
+
 def main():
     props = [json.loads(l) for l in open(os.path.join(V, "properties.jsonl"))]
     checks = []
@@ -81,7 +101,7 @@ def main():
                 "evidence_file": f"/verif/evidence/{i}.json",
                 "replay_cmd_template": f"./check {i} --replay {{path}}",
                 "engine": "vcheck",
-                "level_claimed": {"category": cat, "text": text, "design_ref": "DESIGN.md section " + ref},
+                "level_claimed": {"category": cat, "text": text + EXTRA.get(i, ""), "design_ref": "DESIGN.md section " + ref},
                 "level_note": note,
                 "technique": tech,
             })
